@@ -49,7 +49,8 @@ Inductive action :=
 | AUnlock (m : nat)                (* fiber::Mutex::unlock *)
 | ASpawn (slot : nat) (body : list action)   (* yaclib_std::thread{body} stored in handle [slot] *)
 | AJoin (slot : nat)               (* Thread::join *)
-| ADetach (slot : nat).            (* Thread::detach *)
+| ADetach (slot : nat)             (* Thread::detach *)
+| ACheck.                          (* the client records (GetFaultRandomCount(), GetInjectorState()) *)
 
 Inductive fstate := FRunning | FSuspended | FWaiting | FCompleted.   (* fiber_base.hpp FiberState *)
 Definition fstate_eqb (a b : fstate) : bool :=
@@ -104,6 +105,7 @@ Inductive obs :=
 | OWeakReq                               (* ShouldFailAtomicWeak reached *)
 | OCas (f : fid) (ok : bool)
 | OTimed (f : fid) (timeout : bool)
+| OCheck (count : nat) (state : N)       (* a recorded (random count, injector state) pair *)
 | OCrash (code : nat).
 
 (* ------------------------------------------------------------------ field updates *)
@@ -394,6 +396,7 @@ Definition do_action (f : fid) (r : fiber) (a : action) (rest : list action) (s 
                    else (updf g (fun r' => with_alive r' false) s1, [])
                end
       end
+  | ACheck => (pop, [OCheck (rc s) (inj s)])
   end.
 
 (* FiberBase::Exit, then back in RunLoop: delete the fiber when no Thread handle refers to it any more *)
@@ -503,7 +506,8 @@ Inductive cmd :=
 | CLock (m : nat) | CUnlock (m : nat)
 | CCvWait (c m : nat) | CCvWaitFor (c m : nat) (d : N) | CCvNotifyOne (c : nat) | CCvNotifyAll (c : nat)
 | CQWait (q : nat) | CQWaitFor (q : nat) (d : N) | CQNotifyOne (q : nat) | CQNotifyAll (q : nat)
-| CSpawn (slot : nat) (body : list cmd) | CJoin (slot : nat) | CDetach (slot : nat).
+| CSpawn (slot : nat) (body : list cmd) | CJoin (slot : nat) | CDetach (slot : nat)
+| CPhase.
 
 Fixpoint expand1 (c : cmd) : list action :=
   match c with
@@ -526,5 +530,6 @@ Fixpoint expand1 (c : cmd) : list action :=
                      match l with [] => [] | x :: r => expand1 x ++ ex r end) body)]
   | CJoin sl => [AJoin sl]
   | CDetach sl => [ADetach sl]
+  | CPhase => [ACheck]
   end.
 Definition expand (l : list cmd) : list action := flat_map expand1 l.
